@@ -3,7 +3,8 @@
    [orc] is every logit, [r32] every float32 cast.  The interaction model has three switches
    (fixed_mask, guard_neg, guard_nan); all false = AS CODED in /repo, see Model/Train.v. *)
 From Coq Require Import ZArith List Bool QArith Qcanon.
-From Batchie Require Import Lib.Sexp Lib.Num Generated.Consts Model.Train Proofs.C04Train.
+From Batchie Require Import Lib.Sexp Lib.Num Generated.Consts Model.Encode Model.Screen Model.Train Model.TrainScreen
+  Proofs.C04Train Proofs.C04Screen.
 Import ListNotations.
 Open Scope Z_scope.
 
@@ -151,6 +152,20 @@ Theorem C04_downstream_frame : forall s1 s2,
 Proof. exact downstream_frame_full. Qed.
 Print Assumptions C04_downstream_frame.
 
+(* ---- the same over the shared Screen model (names, doses, bit patterns): two argument lists
+   of the Screen constructor that differ only in masked observation values are accepted or
+   rejected alike, and the constructed screens give equal training data and projections ---- *)
+Theorem C04_screen_noninterference : forall orc r32 fixed_mask guard_neg guard_nan rows1 rows2 arity ctrl tm sm s1,
+  Forall2 name_row_agree rows1 rows2 ->
+  mk_screen rows1 arity ctrl tm sm true true = Ok s1 ->
+  exists s2, mk_screen rows2 arity ctrl tm sm true true = Ok s2 /\
+    train_sdc orc r32 (trows_of_screen s1) = train_sdc orc r32 (trows_of_screen s2) /\
+    train_int orc r32 fixed_mask guard_neg guard_nan arity (trows_of_screen s1)
+      = train_int orc r32 fixed_mask guard_neg guard_nan arity (trows_of_screen s2) /\
+    downstream_input (trows_of_screen s1) = downstream_input (trows_of_screen s2).
+Proof. exact screen_noninterference. Qed.
+Print Assumptions C04_screen_noninterference.
+
 (* ---- non-vacuity ---- *)
 Definition w_rows' : list trow :=
   [ {| t_sample := 0; t_plate := 0; t_treats := [0; -1]; t_obs := OFin half; t_mask := true |};
@@ -182,3 +197,21 @@ Example C04_refusal_example :
     [ {| t_sample := 0; t_plate := 0; t_treats := [-1; -1]; t_obs := OFin (Q2Qc (-3 # 1)); t_mask := true |} ] = Err 2
   /\ sdc_add orc_id OFin [] w_rows = Err 1.
 Proof. split; vm_compute; reflexivity. Qed.
+
+(* the bridge on a concrete pair: 0.5 observed; masked 0.75 vs NaN bits *)
+Definition w_name_rows (masked_bits : Z) : list row :=
+  [ {| r_sample := [120]; r_plate := [112]; r_treats := [([97], 1); ([98], 1)]; r_obs := 4602678819172646912; r_mask := true |};
+    {| r_sample := [120]; r_plate := [113]; r_treats := [([97], 1); ([98], 1)]; r_obs := masked_bits; r_mask := false |} ].
+Example C04_screen_example :
+  match mk_screen (w_name_rows 4604930618986332160) 2 [] None None true true,
+        mk_screen (w_name_rows 9221120237041090560) 2 [] None None true true with
+  | Ok s1, Ok s2 =>
+      map (fun r => (t_sample r, t_plate r, t_treats r, t_mask r)) (trows_of_screen s1)
+        = [(0, 0, [0; 1], true); (0, 1, [0; 1], false)]
+      /\ map (fun r => o_isnan (t_obs r)) (trows_of_screen s1) = [false; false]
+      /\ map (fun r => o_isnan (t_obs r)) (trows_of_screen s2) = [false; true]
+      /\ map (fun r => match t_obs r with OFin q => Some (this q) | _ => None end) (trows_of_screen s1)
+           = [Some (1 # 2)%Q; Some (3 # 4)%Q]
+  | _, _ => False
+  end.
+Proof. vm_compute. repeat split; reflexivity. Qed.
